@@ -1,5 +1,5 @@
 SPECIFICATION Spec
-CONSTANTS K = 4  NP = 6  Continue = TRUE  AnyStart = TRUE
+CONSTANTS K = 4  NP = 6  Continue = TRUE  AnyStart = FALSE
 CHECK_DEADLOCK FALSE
 INVARIANT IsPermutation
 INVARIANT NoDuplicates
